@@ -42,7 +42,7 @@ class H45(Harness):
         Harness.__init__(self, {'nhosts': nhosts, 'hosts': ['up'] * nhosts, 'nsess': 0, 'sched': None}, real_control=True)
         c = self.cluster
         self.cl.wait_futures = _harness_wait
-        for h in self.hosts:
+        for h in self.hosts[:nhosts]:
             h.conviction_policy = NeverConvict(h)
         # control connection: real connect() (first host of the plan)
         c.control_connection.connect()
@@ -71,7 +71,7 @@ class H45(Harness):
         s._pools = Pools(s._pools)
 
     def _number_pools(self):
-        for h in self.hosts:
+        for h in self.hosts[:self.cfg['nhosts']]:
             p = self.session._pools.get(h)
             if p is not None and id(p) not in self.pool_ids:
                 self.pool_ids[id(p)] = (len(self.pool_ids), p)       # keep p alive: ids are not reused
@@ -107,7 +107,7 @@ class H45(Harness):
         c = self.cluster
         self._number_pools()
         pools = []
-        for i, h in enumerate(self.hosts):
+        for i, h in enumerate(self.hosts[:self.cfg['nhosts']]):
             p = self.session._pools.get(h)
             if p is None:
                 pools.append(None)
